@@ -412,7 +412,7 @@ decided by exhaustive evaluation of the guard over environment x {no, some tagge
     choice_override(m, ctx, &ev, &render);
     coverage(m, ctx, apply_fn, &sites);
     auto_tags(m, ctx, &ev);
-    header_flow(m, ctx);
+    header_flow(m, ctx, "C03.header");
 }
 
 pub struct Site {
@@ -804,14 +804,14 @@ fn auto_tags(m: &Model, ctx: &mut Ctx, ev0: &Evaluator) {
 }
 
 /// the pass and `set_module_header` receive the same header; the backend takes its environment from the module header
-fn header_flow(m: &Model, ctx: &mut Ctx) {
-    let Some(f) = anchor_fn(m, ctx, "C03.header", None, "internal_compile", None) else { return };
+pub fn header_flow(m: &Model, ctx: &mut Ctx, rule: &str) {
+    let Some(f) = anchor_fn(m, ctx, rule, None, "internal_compile", None) else { return };
     let mcs = model::method_calls_in(&f.block);
     let apply: Vec<_> = mcs.iter().filter(|c| c.method == "apply_tagging_environment").collect();
     let set: Vec<_> = mcs.iter().filter(|c| c.method == "set_module_header").collect();
-    ctx.oblige("C03.header", "same-header", true);
+    ctx.oblige(rule, "same-header", true);
     if apply.len() != 1 || set.len() != 1 {
-        ctx.violate("C03.header", "pass-invocation", &f.file, f.line,
+        ctx.violate(rule, "pass-invocation", &f.file, f.line,
             &format!("internal_compile must invoke apply_tagging_environment and set_module_header exactly once per definition (found {} / {})", apply.len(), set.len()));
         return;
     }
@@ -820,12 +820,12 @@ fn header_flow(m: &Model, ctx: &mut Ctx) {
     // header_ref.borrow().tagging_environment  vs header_ref.clone()
     let base = |x: &str| x.trim_start_matches('&').split('.').next().unwrap_or("").to_string();
     if base(&a) != base(&s) || !a.contains("tagging_environment") {
-        ctx.violate("C03.header", "same-header", &f.file, span_line(apply[0]),
+        ctx.violate(rule, "same-header", &f.file, span_line(apply[0]),
             &format!("the tagging pass is given `{}` but the definition is attached to `{}`: the environment applied to the tags must be the one of the definition's own module header", a, s));
     }
     // both receivers are the same definition
     if tok(&apply[0].receiver) != tok(&set[0].receiver) {
-        ctx.violate("C03.header", "same-definition", &f.file, span_line(apply[0]),
+        ctx.violate(rule, "same-definition", &f.file, span_line(apply[0]),
             "apply_tagging_environment and set_module_header are applied to different values");
     }
 }
